@@ -131,7 +131,14 @@ def templates(F, S, rng):
     add('io.read_fcs_header_segment', 'bytesio', lambda: F.io.read_fcs_header_segment(_io.BytesIO(raw)))
     add('io.read_fcs_text_segment', 'bytesio', lambda: F.io.read_fcs_text_segment(_io.BytesIO(raw), lay['text_begin'], lay['text_end']))
     widths, ranges = [16, 16], [1024.0, 1024.0]
-    add('io.read_fcs_data_segment', 'lists', lambda: F.io.read_fcs_data_segment(_io.BytesIO(b'\x00' * 8), 0, 7, 'I', 2, widths, True, ranges))
+    tmpf = os.path.join(os.path.dirname(S['int'].infile), 'c13_seg.bin')
+    with open(tmpf, 'wb') as fh:
+        fh.write(b'\x01\x02' * 4)
+
+    def _read_seg():
+        with open(tmpf, 'rb') as fh:
+            return F.io.read_fcs_data_segment(fh, 0, 7, 'I', 2, widths, True, ranges)
+    add('io.read_fcs_data_segment', 'lists', _read_seg)
     return T
 
 
@@ -203,6 +210,32 @@ def run(ctx):
         ctx.notes['target: ' + q] += 0
     for q, n in mon.purity_calls.items():
         ctx.note('purity calls: ' + q, n)
+    # the Excel workflow with plots as a workload under the same purity monitor (calls into io/transform/gate/stats/mef/plot)
+    from rv import excelgen
+    import shutil
+    import warnings
+    for cid, rng in ctx.cases([('excel', r) for r in range(1 if ctx.tier == 'quick' else 10)]):
+        mon.cid = cid
+        mon.template = 'excel_ui.run [plot=True]'
+        old_tag, mon.tag = mon.tag, 'excel-pipeline'
+        base = os.path.join(ctx.tmpdir, 'xl%d' % cid[1])
+        itab, btab, stab, info = excelgen.experiment(rng, base, n_inst=1, n_beads=1, n_samples=2, nfl=3,
+                                                     units_pool=['Channel', 'RFI', 'MEF', 'a.u.'])
+        for bid in btab.index:
+            fl = [c.strip() for c in itab.at[btab.at[bid, 'Instrument ID'], 'Fluorescence Channels'].split(',')]
+            btab.at[bid, 'Clustering Channels'] = ', '.join(fl[:1 + cid[1] % 3])
+        inp = os.path.join(base, 'in.xlsx')
+        excelgen.write_input_workbook(inp, itab, btab, stab)
+        np.random.seed(7)
+        with warnings.catch_warnings():
+            warnings.simplefilter('ignore')
+            o = core.attempt(F.excel_ui.run, input_path=inp, output_path=None, verbose=False, plot=True, hist_sheet=True)
+        plt.close('all')
+        if o.raised:
+            ctx.note('template raised: excel_ui.run: ' + core.exc_str(o.exc)[:160])
+        mon.tag = old_tag
+        shutil.rmtree(base, ignore_errors=True)
+        ctx.case_done(class_key=('template', 'excel_ui.run'), nontrivial=True, distinct_key=core.digest(cid))
     # ---- (ii) aliasing ----------------------------------------------------------------------
     for cid, rng in ctx.cases([('alias', r) for r in range(12 if ctx.tier == 'quick' else 250)]):
         mon.cid = cid
